@@ -785,6 +785,12 @@ class Interp(object):
                 if isinstance(st, (ast.For, ast.While, ast.AugAssign)):
                     r = True
                     break
+                if isinstance(st, ast.Expr) and isinstance(st.value, ast.Call) and isinstance(st.value.func, ast.Attribute) and \
+                        isinstance(st.value.func.value, ast.Name) and st.value.func.value.id in seen:
+                    r = True                  # a container bound above is filled by a method call (TABLE.update(...), LIST.append(...))
+                    break
+                if isinstance(st, ast.AnnAssign) and isinstance(st.target, ast.Name):
+                    seen.add(st.target.id)
                 if isinstance(st, ast.Assign):
                     for t in st.targets:
                         for nm in [x.id for x in ast.walk(t) if isinstance(x, ast.Name)]:
